@@ -137,6 +137,7 @@ def handle (line : String) : String :=
     | some k => runDoerRequest k Generated.filterWrapPre Generated.filterWrapPost rest
     | none => "bad-op"
   | "syncdest" :: rest => runSyncDestRequest rest
+  | "syncprefixes" :: rest => runSyncPrefixesRequest rest
   | "synctrees" :: rest => runSyncTreesRequest Generated.filterWrapPre Generated.filterWrapPost rest
   | ["linktext", b] =>
     match unxBytes b with
